@@ -38,6 +38,9 @@ def check(ctx, rule, mod, only=None):
             # a listed placeholder that was given the conventional 'unused' spelling (_name) is still the same placeholder
             if p.startswith('_') and (mod.name, q, p.lstrip('_')) in EXCEPTIONS:
                 continue
+            # a listed nested placeholder function that moved into another enclosing function (helper extraction) is the same placeholder
+            if '.' in q and any(m_ == mod.name and '.' in q_ and q_.rsplit('.', 1)[1] == q.rsplit('.', 1)[1] and p_ == p for (m_, q_, p_) in EXCEPTIONS):
+                continue
             ctx.violated(rule, '%s:%s#unused-parameter[%s]' % (mod.relpath.replace('pyerrors/', ''), q, p),
                          '%s accepts the parameter `%s` but never reads it: the caller\'s value is silently ignored' % (q, p), mod.loc(f))
     ctx.holds(rule, '%s#parameters-read' % mod.relpath.replace('pyerrors/', ''), '%d parameters of %s are all read (or listed placeholders)' % (n, mod.relpath))
